@@ -26,10 +26,15 @@ func VH_C06_reject() {
 		} else {
 			vAssume(vOr(c.K == a.K, c.K == b.K))
 		}
+		// the field indexes are visited in map order: whichever comes first, the
+		// rejected object (all its indexed fields differ from a's) leaves no entry
+		vMapOrder(true)
 		err := db.InsertOrUpdate(c)
+		vMapOrder(false)
 		vAssert("C06.unique.rejected", IsUnique(err))
 		vhRichReads("C06.unique.after", db, rows)
-		vhRichSearch("C06.unique.after", db, rows, "K", vhOps[vChoice("_sop", len(vhOps))])
+		sf := []string{"K", "N", "T", "Q"}[vChoice("sfield", 4)]
+		vhRichSearch("C06.unique.after", db, rows, sf, vhOps[vChoice("_sop", len(vhOps))])
 		objs, aerr := db.All(&vRich{})
 		vAssert("C06.unique.all", aerr == nil && len(objs) == 2)
 		for _, o := range objs {
